@@ -30,7 +30,21 @@ class Decoder:
         return self.m.eval(t, model_completion=True)
 
     def name(self, t):
-        return str(self.ev(t)).replace('!val!', '')
+        v = self.ev(t)
+        if v.sort() == sym.Elem:
+            # opaque data that the model makes equal to a named constant (None, a string literal, the no_default sentinel)
+            # is that constant in the replay, not an arbitrary atom
+            if not hasattr(self, '_consts'):
+                self._consts = {}
+                for label, c in [('None', sym.c_none_elem)] + [(k, c) for k, c in sym._str_elems.items()]:
+                    try:
+                        self._consts.setdefault(str(self.ev(c)), label)
+                    except z3.Z3Exception:
+                        pass
+            lab = self._consts.get(str(v))
+            if lab is not None:
+                return 'const:' + lab
+        return str(v).replace('!val!', '')
 
     def elem(self, t):
         return self.name(t)
